@@ -28,7 +28,10 @@ Addr(a, b) == [t |-> "addr", v |-> <<a, b>>, sp |-> "canonical"]
 AddrTight(a, b) == [t |-> "addr", v |-> <<a, b>>, sp |-> "tight"]
 \* other spellings that evaluate to the same address: "(a,b)", "(+a, b)", "(a, b,)", "a, b"
 Spellings == <<"tight", "plus", "trailing", "bare">>
-AddrSpelled(a, b, i) == [t |-> "addr", v |-> <<a, b>>, sp |-> Spellings[i]]
+AllSpellings == <<"canonical", "tight", "plus", "trailing", "bare">>
+\* the i-th spelling that differs from spelling `not` (a key spelled the same way would be the same YAML key)
+AddrSpelled(a, b, i, not) ==
+    [t |-> "addr", v |-> <<a, b>>, sp |-> SelectSeq(AllSpellings, LAMBDA s : s # not)[i]]
 List(s) == [t |-> "list", v |-> s]
 Map(ks, vs) == [t |-> "map", k |-> ks, v |-> vs]
 Null == [t |-> "null"]
@@ -313,8 +316,8 @@ NPos(r, d) ==
       [] r = "scan_cost_negative" -> 4
       [] r \in {"host_missing", "host_unknown_service", "host_duplicate_service", "host_unknown_process",
                 "host_duplicate_process", "host_unknown_os", "host_firewall_not_map",
-                "host_firewall_bad_address", "host_firewall_unknown_service"} -> NHC(d)
-      [] r = "host_value_nonnumeric" -> 4 * NHC(d)
+                "host_firewall_unknown_service"} -> NHC(d)
+      [] r \in {"host_value_nonnumeric", "host_firewall_bad_address"} -> 4 * NHC(d)
       [] r = "host_superfluous" -> 1
       [] r = "host_value_contradicts_sensitive" -> 3 * Cardinality(SensHostIdx(d))
       [] r \in {"firewall_rule_missing", "firewall_rule_not_list", "firewall_rule_unknown_service"} -> NFW(d)
@@ -337,7 +340,7 @@ BreakAct(d, sec, what, r, p) ==
 
 BreakHost(d, r, p0) ==
     LET m == Get(d, "host_configurations")
-        p == IF r = "host_value_nonnumeric" THEN ((p0 - 1) \div 4) + 1 ELSE p0
+        p == IF r \in {"host_value_nonnumeric", "host_firewall_bad_address"} THEN ((p0 - 1) \div 4) + 1 ELSE p0
         variant == (p0 - 1) % 4
         c == m.v[p]
         srv == Get(c, "services")
@@ -351,7 +354,11 @@ BreakHost(d, r, p0) ==
                 [] r = "host_unknown_os" -> SetKey(c, "os", StrN("zz_unknown_os"))
                 [] r = "host_firewall_not_map" -> SetKey(c, "firewall", List(<<StrN(SrvD(d)[1])>>))
                 [] r = "host_firewall_bad_address" ->
-                     SetKey(c, "firewall", Map(<<Addr(NSubD(d) + 3, 0)>>, <<List(<<StrN(SrvD(d)[1])>>)>>))
+                     \* subnet too large / negative subnet (Python would wrap it) / the internet / host too large
+                     SetKey(c, "firewall",
+                            Map(<<CASE variant = 0 -> Addr(NSubD(d) + 3, 0) [] variant = 1 -> Addr(-1, 0)
+                                    [] variant = 2 -> Addr(0, 0) [] OTHER -> Addr(1, SizeOf(d, 1) + 5)>>,
+                                <<List(<<StrN(SrvD(d)[1])>>)>>))
                 [] r = "host_firewall_unknown_service" ->
                      SetKey(c, "firewall", Map(<<anyAddr>>, <<List(<<StrN("zz_unknown")>>)>>))
                 [] r = "host_value_nonnumeric" ->
@@ -392,7 +399,7 @@ Break(r, p, d) ==
            SetKey(d, "sensitive_hosts", [m EXCEPT !.k[p] = Addr(m.k[p].v[1], SizeOf(d, m.k[p].v[1]))])
       [] r = "sensitive_duplicate" ->
            LET m == Get(d, "sensitive_hosts") IN
-           SetKey(d, "sensitive_hosts", AddEntry(m, AddrSpelled(m.k[1].v[1], m.k[1].v[2], p), m.v[1]))
+           SetKey(d, "sensitive_hosts", AddEntry(m, AddrSpelled(m.k[1].v[1], m.k[1].v[2], p, m.k[1].sp), m.v[1]))
       [] r = "sensitive_nonpositive" ->
            LET m == Get(d, "sensitive_hosts") IN
            SetKey(d, "sensitive_hosts", SetAt(m, p, IF p % 2 = 0 THEN IntN(0) ELSE NumN(-2500000)))
